@@ -15,7 +15,9 @@ BUDGET = {"quick": 200, "thorough": 1500}
 
 
 def configs(tier):
-    cs = [Config(levels=2, ndisks=3, contents=["c0/content", "c1/content"]), Config(levels=1, ndisks=2, uuid=True)]
+    cs = [Config(levels=2, ndisks=3, contents=["c0/content", "c1/content"]), Config(levels=1, ndisks=2, uuid=True),
+          # the second disk is configured but still empty (never recorded in the content file)
+          Config(levels=1, ndisks=2, tag="second-empty")]
     if tier == "thorough":
         cs += [Config(levels=3, ndisks=3, splits={0: 2, 1: 2, 2: 2}, parity_limit=6144, hashsize=8)]
     return cs
@@ -23,7 +25,7 @@ def configs(tier):
 
 def base_ops(cfg):
     ops = []
-    for d in cfg.disknames:
+    for d in (cfg.disknames[:1] if cfg.tag == "second-empty" else cfg.disknames):
         ops += [("write", d, "f1", 1500, 0), ("write", d, "sub/f2", 1025, 0)]
     ops += [("write", "d1", "big", 3000, 0), ("cmd", "sync")]
     return ops
@@ -35,7 +37,8 @@ PENDING = [("write", "d1", "new", 1200, 0), ("rm", "d1", "big")]
 def triggers(cfg):
     """(name, ops that arm the trigger, override options, conf edit or None)"""
     t = []
-    for d in cfg.disknames:
+    populated = cfg.disknames[:1] if cfg.tag == "second-empty" else cfg.disknames
+    for d in populated:
         t.append(("all-missing:" + d, [("emptydisk", d)], ("-E",), None))
         t.append(("all-rewritten:" + d, [("write", d, "f1", 1500, 1), ("write", d, "sub/f2", 1025, 1)] +
                   ([("write", d, "big", 3000, 1)] if d == "d1" else []), ("-E",), None))
@@ -48,7 +51,7 @@ def triggers(cfg):
         t.append(("parity-short-R:%d" % l, [("truncparity", l)], ("-R",), None))
     t.append(("blocksize-changed", [], None, ("blocksize", 2)))
     t.append(("hashsize-changed", [], None, ("hashsize", 8 if cfg.hashsize == 16 else 16)))
-    for d in cfg.disknames:
+    for d in populated:
         t.append(("disk-dropped:" + d, [], None, ("dropdisk", d)))
     return t
 
@@ -151,6 +154,17 @@ def trigger_job(j):
         v.append(dict(kind="died-with-signal-%d" % res.signal, where=where))
     # the override
     if edit is not None:
+        # a configuration that does not fit the content file has no override: the force options that belong to OTHER interlocks
+        # must not get past it either
+        for extra in (("-E",), ("-E", "--force-zero", "-F")):
+            b2 = protected(L)
+            rx = L.run("sync", *extra)
+            if rx.rc == 0:
+                v.append(dict(kind="not-refused", where=where + " with " + " ".join(extra), out=rx.text()[-300:]))
+            if protected(L) != b2:
+                v.append(dict(kind="refused-but-modified", where=where + " with " + " ".join(extra)))
+            if v:
+                break
         edit_conf(L, edit, undo=True)
         r2 = L.run("sync")
     else:
